@@ -196,6 +196,20 @@ fn expected_id_h(typ: &str, scheme: &str, halgs: &str, material: &[u8]) -> Strin
     sha256_hex(&olpc_bytes(&reference_description_h(typ, scheme, halgs, &public)))
 }
 
+/// public key material of a PKCS#8 private key as ring sees it: raw 32 bytes (ed25519), the uncompressed
+/// point (P-256), DER RSAPublicKey (RSA)
+pub fn independent_public(typ: &str, pkcs8: &[u8]) -> Option<Vec<u8>> {
+    use ring::signature::KeyPair;
+    match typ {
+        "ed25519" => ring::signature::Ed25519KeyPair::from_pkcs8(pkcs8).ok().map(|k| k.public_key().as_ref().to_vec()),
+        "ecdsa" => {
+            let rng = ring::rand::SystemRandom::new();
+            ring::signature::EcdsaKeyPair::from_pkcs8(&ring::signature::ECDSA_P256_SHA256_ASN1_SIGNING, pkcs8, &rng).ok().map(|k| k.public_key().as_ref().to_vec())
+        }
+        _ => ring::signature::RsaKeyPair::from_pkcs8(pkcs8).ok().map(|k| k.public_key().as_ref().to_vec()),
+    }
+}
+
 /// run one construction path on every fixture key of the type
 pub fn run_path(scn: &Value) -> Value {
     let typ = scn["typ"].as_str().unwrap();
@@ -212,14 +226,22 @@ pub fn run_path(scn: &Value) -> Value {
             let der = keys::raw_der(fam, idx);
             let sk = keys::load(fam, idx);
             let mut generated: Option<Vec<u8>> = None;
-            let mut material = sk.public().as_bytes().to_vec();
+            // the public key material, derived from the private key WITHOUT the library (ring only)
+            let mut material = match independent_public(typ, der) {
+                Some(m) => m,
+                None => {
+                    problems.push(json!({"family": fam, "idx": idx, "harness": "cannot derive the public key independently"}));
+                    continue;
+                }
+            };
+            let _ = &sk;
             let mut std_spki = standard_spki(typ, &material);
             // a path that starts from a freshly generated key pair works on that key's material
             if scn["path"][0] == "generated" {
                 let kt = if typ == "ed25519" { in_toto::crypto::KeyType::Ed25519 } else { in_toto::crypto::KeyType::Ecdsa };
                 if let Ok(Ok(der)) = guarded(|| PrivateKey::new(kt)) {
-                    if let Ok(k) = PrivateKey::from_pkcs8(&der, scheme_of(type_scheme(fam).1)) {
-                        material = k.public().as_bytes().to_vec();
+                    if let Some(m) = independent_public(typ, &der) {
+                        material = m;
                         std_spki = standard_spki(typ, &material);
                         generated = Some(der);
                     }
